@@ -16,6 +16,7 @@ import (
 	"github.com/ava-labs/hypersdk/codec"
 	"github.com/ava-labs/hypersdk/internal/eheap"
 	"github.com/ava-labs/hypersdk/internal/list"
+	"github.com/ava-labs/hypersdk/internal/verifhook"
 )
 
 const maxPrealloc = 4_096
@@ -91,6 +92,7 @@ func (m *Mempool[T]) Has(ctx context.Context, itemID ids.ID) bool {
 	_, span := m.tracer.Start(ctx, "Mempool.Has")
 	defer span.End()
 
+	verifhook.AwaitLock("mempool.Has", 0, &m.mu)
 	m.mu.Lock()
 	defer m.mu.Unlock()
 
@@ -105,6 +107,7 @@ func (m *Mempool[T]) Add(ctx context.Context, items []T) {
 	_, span := m.tracer.Start(ctx, "Mempool.Add")
 	defer span.End()
 
+	verifhook.AwaitLock("mempool.Add", 0, &m.mu)
 	m.mu.Lock()
 	defer m.mu.Unlock()
 
@@ -154,6 +157,7 @@ func (m *Mempool[T]) PeekNext(ctx context.Context) (T, bool) {
 	_, span := m.tracer.Start(ctx, "Mempool.PeekNext")
 	defer span.End()
 
+	verifhook.AwaitRLock("mempool.PeekNext", 0, &m.mu)
 	m.mu.RLock()
 	defer m.mu.RUnlock()
 
@@ -170,6 +174,7 @@ func (m *Mempool[T]) PopNext(ctx context.Context) (T, bool) { // O(log N)
 	_, span := m.tracer.Start(ctx, "Mempool.PopNext")
 	defer span.End()
 
+	verifhook.AwaitLock("mempool.PopNext", 0, &m.mu)
 	m.mu.Lock()
 	defer m.mu.Unlock()
 
@@ -193,6 +198,7 @@ func (m *Mempool[T]) Remove(ctx context.Context, items []T) {
 	_, span := m.tracer.Start(ctx, "Mempool.Remove")
 	defer span.End()
 
+	verifhook.AwaitLock("mempool.Remove", 0, &m.mu)
 	m.mu.Lock()
 	defer m.mu.Unlock()
 
@@ -212,6 +218,7 @@ func (m *Mempool[T]) Len(ctx context.Context) int {
 	_, span := m.tracer.Start(ctx, "Mempool.Len")
 	defer span.End()
 
+	verifhook.AwaitRLock("mempool.Len", 0, &m.mu)
 	m.mu.RLock()
 	defer m.mu.RUnlock()
 
@@ -220,6 +227,7 @@ func (m *Mempool[T]) Len(ctx context.Context) int {
 
 // Size returns the size (in bytes) of items in m.
 func (m *Mempool[T]) Size(context.Context) int {
+	verifhook.AwaitRLock("mempool.Size", 0, &m.mu)
 	m.mu.RLock()
 	defer m.mu.RUnlock()
 
@@ -231,6 +239,7 @@ func (m *Mempool[T]) SetMinTimestamp(ctx context.Context, t int64) []T {
 	_, span := m.tracer.Start(ctx, "Mempool.SetMinTimesamp")
 	defer span.End()
 
+	verifhook.AwaitLock("mempool.SetMinTimestamp", 0, &m.mu)
 	m.mu.Lock()
 	defer m.mu.Unlock()
 
@@ -255,6 +264,7 @@ func (m *Mempool[T]) Top(
 	ctx, span := m.tracer.Start(ctx, "Mempool.Top")
 	defer span.End()
 
+	verifhook.AwaitLock("mempool.Top", 0, &m.mu)
 	m.mu.Lock()
 	defer m.mu.Unlock()
 
@@ -290,9 +300,11 @@ func (m *Mempool[T]) Top(
 // best txs to build without holding the lock during the duration of the build
 // process. Streaming in batches allows for various state prefetching operations.
 func (m *Mempool[T]) StartStreaming(_ context.Context) {
+	verifhook.AwaitLock("mempool.StartStreaming", 0, &m.mu)
 	m.mu.Lock()
 	defer m.mu.Unlock()
 
+	verifhook.AwaitLock("mempool.streamLock", 0, &m.streamLock)
 	m.streamLock.Lock()
 	m.streamedItems = set.NewSet[ids.ID](maxPrealloc)
 }
@@ -303,6 +315,7 @@ func (m *Mempool[T]) PrepareStream(ctx context.Context, count int) {
 	_, span := m.tracer.Start(ctx, "Mempool.PrepareStream")
 	defer span.End()
 
+	verifhook.AwaitLock("mempool.PrepareStream", 0, &m.mu)
 	m.mu.Lock()
 	defer m.mu.Unlock()
 
@@ -316,6 +329,7 @@ func (m *Mempool[T]) Stream(ctx context.Context, count int) []T {
 	_, span := m.tracer.Start(ctx, "Mempool.Stream")
 	defer span.End()
 
+	verifhook.AwaitLock("mempool.Stream", 0, &m.mu)
 	m.mu.Lock()
 	defer m.mu.Unlock()
 
@@ -351,6 +365,7 @@ func (m *Mempool[T]) FinishStreaming(ctx context.Context, restorable []T) int {
 		attribute.Int("restorable", len(restorable)),
 	)
 
+	verifhook.AwaitLock("mempool.FinishStreaming", 0, &m.mu)
 	m.mu.Lock()
 	defer m.mu.Unlock()
 
